@@ -135,7 +135,8 @@ func replayDistribute(m map[string]any) int {
 	warm, _ := m["after_a_valid_round"].(bool)
 	sl, _ := m["witness_name_with_slash"].(bool)
 	ns, _ := m["log_keys_named_like_the_witness"].(bool)
-	c15RunOpt(run, u, stringsOf(m["origins"]), stringsOf(m["witness_answers"]), stringsOf(m["distributor_answers"]), warm, sl, ns)
+	bp, _ := m["base_url_with_path"].(bool)
+	c15RunOpt(run, u, stringsOf(m["origins"]), stringsOf(m["witness_answers"]), stringsOf(m["distributor_answers"]), warm, sl, ns, bp)
 	return run.Finish()
 }
 
